@@ -65,6 +65,7 @@ func Generate(seed uint64, profName string, opt RunOpts) *RunResult {
 	}
 	e.R.FuelBudget = opt.Fuel
 	defaultOracles(e)
+	e.KeepBlocks = opt.Mode == "c01" || opt.Mode == "c03"
 	g := NewGen(e, prof)
 	for {
 		st := g.Next()
@@ -77,6 +78,9 @@ func Generate(seed uint64, profName string, opt RunOpts) *RunResult {
 		if len(e.Viol) > 0 && e.StopOnViolation {
 			break
 		}
+	}
+	if len(e.Viol) == 0 || !e.StopOnViolation {
+		e.RunReplicas(opt.Mode)
 	}
 	e.Finish()
 	finishResult(e, tr, res, opt)
@@ -97,6 +101,7 @@ func Replay(tr *Trace, opt RunOpts) *RunResult {
 	}
 	e.R.FuelBudget = opt.Fuel
 	defaultOracles(e)
+	e.KeepBlocks = opt.Mode == "c01" || opt.Mode == "c03"
 	for i := range tr.Steps {
 		e.stepIx = i
 		st := tr.Steps[i]
@@ -116,6 +121,7 @@ func Replay(tr *Trace, opt RunOpts) *RunResult {
 			}
 		}
 	}
+	e.RunReplicas(opt.Mode)
 	e.Finish()
 	finishResult(e, tr, res, opt)
 	return res
